@@ -1045,3 +1045,12 @@ PARTS = [Check, Gate]
 COQ_PROPS = (list(COQ_PROPS) if isinstance(COQ_PROPS, (list, tuple)) else [COQ_PROPS]) + ['Props/SRCvalid.v']
 THEOREMS = list(THEOREMS) + ['SRC_check_valid', 'SRC_multiplicity_dyn', 'SRC_valid_classes_dyn']
 TABLES = sorted(set(list(globals().get('TABLES') or []) + ['t_src_valid', 't_content'])) if globals().get('TABLES') else None
+
+
+# link (integrator): the abstract extension model (coq/Ext) is tied to the raw JSON content model (coq/Content, coq/Json,
+# coq/Cli) through Link/Abs.v to_content / of_content; LinkPart compares to_content with the real _content on every run
+from props import link as _link
+COQ_PROPS = (list(COQ_PROPS) if isinstance(COQ_PROPS, (list, tuple)) else [COQ_PROPS]) + ['Props/C10link.v']
+THEOREMS = list(THEOREMS) + ['C10_gate_ext_partial', 'C10_gate_ext_refuted', 'C10_gates_accept_valid', 'C10_valid_iff_rules']
+if globals().get('TABLES'): TABLES = sorted(set(list(TABLES) + _link.TABLES))
+PARTS = list(PARTS) + [_link.LinkPart]
